@@ -60,7 +60,7 @@ Proof.
   intros; unfold save_block.
   destruct (outdir o); [|reflexivity].
   destruct (plot_e o); [destruct (0 <? i)|]; cbn [depth write]; rewrite ?depth_save_sl;
-    destruct (export o); reflexivity.
+    destruct (export o), (save_all o); reflexivity.
 Qed.
 Lemma depth_report_block : forall v o e i s s1, report_block v o e i s = Ok s1 -> depth s1 = depth s.
 Proof.
@@ -68,7 +68,8 @@ Proof.
   destruct (glob_set v o e); [|intros H; injection H as <-; reflexivity].
   destruct (negb (i =? 0) && negb _); [discriminate|].
   intros H; injection H as <-.
-  rewrite ?depth_gwrite, ?(if_app _ _ depth), ?depth_gwrite, ?if_same, ?depth_gwrite. reflexivity.
+  rewrite depth_gwrite. destruct (outdir o); cbn [depth write];
+    rewrite ?(if_app _ _ depth), ?depth_gwrite, ?if_same, ?depth_gwrite; reflexivity.
 Qed.
 Lemma depth_callbacks_fixed : forall o i s, depth (fst (callbacks fixed o i s)) = pred (depth s).
 Proof.
@@ -105,7 +106,7 @@ Qed.
 Lemma run_eq : forall v o e,
   run v o e =
   if negb (outdir o) && resume o then Err EValue else
-  if total o =? 0 then Err EValue else
+  if total o <=? init_index o then Err EValue else
   if negb ((inspect_args o =? 0) || (inspect_args o =? 1) || (inspect_args o =? 2)) then Err EValue else
   if sanity o && negb (sic o) && exists_lt (fun i => negb (nsamp o i =? 0)) (total o) then Err EAssert else
   match prepare v o e with
@@ -150,7 +151,7 @@ Lemma rng_balanced : forall o e r,
 Proof.
   intros o e r. rewrite run_eq.
   destruct (negb (outdir o) && resume o); [discriminate|].
-  destruct (total o =? 0); [discriminate|].
+  destruct (total o <=? init_index o); [discriminate|].
   destruct (negb _); [discriminate|].
   destruct (sanity o && negb (sic o) && _); [discriminate|].
   destruct (prepare fixed o e) as [[[[s first] loaded] early]|] eqn:Hp; [|discriminate].
@@ -177,7 +178,7 @@ Lemma foreign_save_block : forall v o i s, foreign (save_block v o i s) = foreig
 Proof.
   intros; unfold save_block. destruct (outdir o); [|reflexivity].
   destruct (plot_e o); [destruct (0 <? i)|]; cbn [foreign write]; rewrite ?foreign_save_sl;
-    destruct (export o); reflexivity.
+    destruct (export o), (save_all o); reflexivity.
 Qed.
 Lemma foreign_gwrite_out : forall o f s, outdir o = true -> foreign (gwrite o f s) = foreign s.
 Proof. intros o f s H; unfold gwrite; rewrite H; reflexivity. Qed.
@@ -191,7 +192,7 @@ Proof.
   - destruct (negb (i =? 0) && negb _); [discriminate|].
     intros H; injection H as <-. split; [|discriminate].
     rewrite foreign_gwrite_out by assumption.
-    destruct (plot_m o); rewrite ?foreign_gwrite_out by assumption; reflexivity.
+    destruct (plot_m o); cbn [foreign write]; rewrite ?foreign_gwrite_out by assumption; reflexivity.
   - intros H; injection H as <-. auto.
 Qed.
 
@@ -239,7 +240,7 @@ Lemma no_foreign_no_stray : forall o e r,
 Proof.
   intros o e r. rewrite run_eq.
   destruct (negb (outdir o) && resume o); [discriminate|].
-  destruct (total o =? 0); [discriminate|].
+  destruct (total o <=? init_index o); [discriminate|].
   destruct (negb _); [discriminate|].
   destruct (sanity o && negb (sic o) && _); [discriminate|].
   destruct (prepare fixed o e) as [[[[s first] loaded] early]|] eqn:Hp; [|discriminate].
@@ -258,7 +259,7 @@ Lemma result_tuple : forall v o e r, run v o e = Ok r -> r_tuple r = ret_pos o.
 Proof.
   intros v o e r. rewrite run_eq.
   destruct (negb (outdir o) && resume o); [discriminate|].
-  destruct (total o =? 0); [discriminate|].
+  destruct (total o <=? init_index o); [discriminate|].
   destruct (negb _); [discriminate|].
   destruct (sanity o && negb (sic o) && _); [discriminate|].
   destruct (prepare v o e) as [[[[s first] loaded] early]|]; [|discriminate].
@@ -274,7 +275,7 @@ Proof.
   intros; unfold save_block. destruct (outdir o); [|auto].
   destruct (plot_e o); [destruct (0 <? i)|]; cbn [sl_n sl_res write];
     match goal with |- context [save_sl ?w ?f ?x] => destruct (sl_save_sl w f x) as [H1 H2]; rewrite H1, H2 end;
-    destruct (export o); auto.
+    destruct (export o), (save_all o); auto.
 Qed.
 Lemma sl_gwrite : forall o f s, sl_n (gwrite o f s) = sl_n s /\ sl_res (gwrite o f s) = sl_res s.
 Proof. intros; unfold gwrite; destruct (outdir o); auto. Qed.
@@ -411,24 +412,30 @@ Proof.
   set (s1 := if export o then write (FExport (fn o i)) s else s).
   assert (H1 : has (files s1) g = true -> g = FExport (fn o i) \/ has (files s) g = true).
   { unfold s1. destruct (export o); [rewrite has_write|]; auto. }
-  assert (H2 : has (files (save_sl v (fn o i) s1)) g = true -> iter_file o i g \/ has (files s) g = true).
+  set (s2 := if save_all o then s1 else unlink FLast s1).
+  assert (H1' : has (files s2) g = true -> has (files s1) g = true).
+  { unfold s2. destruct (save_all o); [auto|]. cbn [files unlink]. rewrite has_del. tauto. }
+  assert (H2 : has (files (save_sl v (fn o i) s2)) g = true -> iter_file o i g \/ has (files s) g = true).
   { intros H. apply has_save_sl in H as [->|[(k & ->)|H]].
     - left; unfold iter_file; auto 20.
     - left; unfold iter_file; eauto 20.
-    - apply H1 in H as [->|H]; [left; unfold iter_file; auto 20|auto]. }
+    - apply H1', H1 in H as [->|H]; [left; unfold iter_file; auto 20|auto]. }
   destruct (plot_e o); [destruct (0 <? i)|]; intros H;
     repeat (apply has_write in H; destruct H as [->|H]; [left; unfold iter_file; auto 20|]);
     auto.
 Qed.
 
 Lemma save_block_keeps : forall v o i s g,
-  has (files s) g = true -> (forall f k, g <> FSample f k) -> (forall f, g <> FMean f) ->
+  has (files s) g = true -> (forall f k, g <> FSample f k) -> (forall f, g <> FMean f) -> g <> FLast ->
   has (files (save_block v o i s)) g = true.
 Proof.
-  intros v o i s g H Hn Hm. unfold save_block. destruct (outdir o); [|assumption].
+  intros v o i s g H Hn Hm Hl. unfold save_block. destruct (outdir o); [|assumption].
   assert (H1 : has (files (if export o then write (FExport (fn o i)) s else s)) g = true).
   { destruct (export o); [cbn; apply has_add; auto|assumption]. }
-  apply (save_sl_keeps v (fn o i)) in H1; [|apply Hn|apply Hm].
+  assert (H2 : has (files (if save_all o then (if export o then write (FExport (fn o i)) s else s)
+                           else unlink FLast (if export o then write (FExport (fn o i)) s else s))) g = true).
+  { destruct (save_all o); [assumption|]. cbn [files unlink]. apply has_del. auto. }
+  apply (save_sl_keeps v (fn o i)) in H2; [|apply Hn|apply Hm].
   destruct (plot_e o); [destruct (0 <? i)|]; cbn [files write]; rewrite ?has_add; auto 10.
 Qed.
 
@@ -454,7 +461,7 @@ Proof.
     { destruct (i =? 0) eqn:Ei; [reflexivity|]. apply Nat.eqb_neq in Ei. cbn.
       apply negb_false_iff. apply has_gwrite_out; auto. }
     rewrite Hp. eexists. split; [reflexivity|]. intros _.
-    apply has_gwrite_out; [assumption|]. right.
+    apply has_gwrite_out; [assumption|]. right. apply has_write. right.
     assert (Hg : gfn o e i = fn o i) by (unfold gfn; rewrite Ho; reflexivity). rewrite Hg.
     destruct (plot_m o); repeat (apply has_gwrite_out; [assumption|]); auto.
     right. apply has_gwrite_out; auto.
@@ -470,7 +477,7 @@ Proof.
   { destruct (sic o) eqn:E; [reflexivity|]. rewrite (Hsic eq_refl i). reflexivity. }
   rewrite Hc.
   destruct (report_block_ok o e i (save_block fixed o i (minimise o i (enter o i s)))) as (s1 & Hr & Hh).
-  { intros Ho Hi. apply save_block_keeps; [|intros; discriminate|intros; discriminate].
+  { intros Ho Hi. apply save_block_keeps; [|intros; discriminate|intros; discriminate|discriminate].
     destruct (files_minimise o i (enter o i s)) as [M1 _]. destruct (files_enter o i s) as [E1 _].
     rewrite M1, E1. apply Hinv; assumption. }
   rewrite Hr. rewrite (surjective_pairing (callbacks fixed o i s1)).
@@ -498,7 +505,7 @@ Lemma prepare_ok : forall o e, valid o e ->
   exists s first loaded early, prepare fixed o e = Ok (s, first, loaded, early) /\
     (early = false -> mh_inv o first s).
 Proof.
-  intros o e (Ht & Hres & Hins & Hsic & Hfr & Hd0 & Hdisk). unfold prepare. cbn [fix_iglobal fixed negb andb].
+  intros o e (Ht & Hres & Hins & Hsic & Hfr & Hd0 & Hdisk & Hinit). unfold prepare. cbn [fix_iglobal fixed negb andb].
   destruct (outdir o) eqn:Ho.
   - destruct (last0 e) as [l|] eqn:El.
     + destruct (resume o) eqn:Er.
@@ -511,19 +518,21 @@ Proof.
            change (1 =? 0) with false. change (negb (1 =? 1)) with false. cbv iota.
            destruct (S l =? total o); eexists _, _, _, _; (split; [reflexivity|]);
              [discriminate|]. intros _ _ _. cbn. exact H3.
-      * eexists _, _, _, _. split; [reflexivity|]. intros _ _ Hn. congruence.
-    + eexists _, _, _, _. split; [reflexivity|]. intros _ _ Hn. congruence.
+      * eexists _, _, _, _. split; [reflexivity|]. intros _ _ Hn. apply has_write. right.
+        apply Hinit; auto. discriminate.
+    + eexists _, _, _, _. split; [reflexivity|]. intros _ _ Hn. apply has_write. right.
+      apply Hinit; auto.
   - eexists _, _, _, _. split; [reflexivity|]. intros _ Hn. congruence.
 Qed.
 
 Lemma total_ok : forall o e, valid o e -> exists r, run fixed o e = Ok r.
 Proof.
-  intros o e Hv. pose proof Hv as (Ht & Hres & Hins & Hsic & Hfr & Hd0 & Hdisk).
+  intros o e Hv. pose proof Hv as (Ht & Hres & Hins & Hsic & Hfr & Hd0 & Hdisk & Hinit).
   rewrite run_eq.
   assert (H1 : negb (outdir o) && resume o = false).
   { destruct (resume o); [rewrite (Hres eq_refl); reflexivity|apply andb_false_r]. }
   rewrite H1.
-  assert (H2 : total o =? 0 = false) by (apply Nat.eqb_neq; lia). rewrite H2.
+  assert (H2 : total o <=? init_index o = false) by (apply Nat.leb_gt; lia). rewrite H2.
   assert (H3 : negb ((inspect_args o =? 0) || (inspect_args o =? 1) || (inspect_args o =? 2)) = false).
   { destruct (inspect_args o) as [|[|[|k]]]; try reflexivity. lia. }
   rewrite H3.
@@ -572,7 +581,9 @@ Proof.
   destruct (negb (i =? 0) && negb _); [discriminate|].
   intros H; injection H as <-.
   assert (Hg : gfn o e i = fn o i) by (unfold gfn; rewrite Ho; reflexivity). rewrite Hg.
-  intros H. destruct (plot_m o);
+  intros H. apply has_gwrite_out in H; [|assumption]. destruct H as [->|H]; [left; unfold iter_file; auto 20|].
+  apply has_write in H. destruct H as [->|H]; [left; unfold iter_file; auto 20|].
+  destruct (plot_m o);
     repeat (apply has_gwrite_out in H; [|assumption]; destruct H as [->|H]; [left; unfold iter_file; auto 20|]);
     auto.
 Qed.
@@ -634,7 +645,7 @@ Lemma files_follow_strategy : forall o e r g,
 Proof.
   intros o e r g. rewrite run_eq.
   destruct (negb (outdir o) && resume o); [discriminate|].
-  destruct (total o =? 0); [discriminate|].
+  destruct (total o <=? init_index o); [discriminate|].
   destruct (negb _); [discriminate|].
   destruct (sanity o && negb (sic o) && _); [discriminate|].
   destruct (prepare fixed o e) as [[[[s first] loaded] early]|] eqn:Hp; [|discriminate].
@@ -649,14 +660,14 @@ Qed.
 (* ---- the pinned control flow violates the property (witnesses, by computation) ---- *)
 Definition o_base : opts :=
   mkOpts 3 (fun _ => 2) true false false false false false true false (fun _ => true) false (fun _ => false)
-         2 (fun _ => false) true false.
+         2 (fun _ => false) true false 0.
 Definition e_base : env := mkEnv 1 [] None 1 false false.
 
 Lemma valid_concrete : forall o e,
-  1 <= total o -> resume o = false -> inspect_args o <= 2 -> sic o = true -> fresh o 0 = true ->
+  init_index o = 0 -> 1 <= total o -> resume o = false -> inspect_args o <= 2 -> sic o = true -> fresh o 0 = true ->
   1 <= depth0 e -> valid o e.
 Proof.
-  intros o e H1 H2 H3 H4 H5 H6. unfold valid. repeat split; auto; try congruence.
+  intros o e H0 H1 H2 H3 H4 H5 H6. unfold valid. repeat split; auto; try congruence; try lia.
 Qed.
 
 Lemma each_fix_needed :
@@ -666,14 +677,14 @@ Lemma each_fix_needed :
 Proof.
   split; [|split].
   - exists (mkOpts 3 (fun _ => 2) true false false false false false true true (fun _ => true) false
-                   (fun _ => false) 2 (fun _ => false) true false), e_base.
+                   (fun _ => false) 2 (fun _ => false) true false 0), e_base.
     eexists. split; [apply valid_concrete; cbn; auto|].
     split; [vm_compute; reflexivity|]. cbn. split; [discriminate|reflexivity].
   - exists (mkOpts 2 (fun _ => 2) true true false false false false false false (fun _ => true) false
-                   (fun _ => false) 2 (fun _ => false) true false), e_base.
+                   (fun _ => false) 2 (fun _ => false) true false 0), e_base.
     split; [apply valid_concrete; cbn; auto|vm_compute; reflexivity].
   - exists (mkOpts 1 (fun _ => 2) true false false false false false true false (fun _ => true) false
-                   (fun _ => false) 2 (fun _ => false) true false), (mkEnv 1 [] None 1 true false).
+                   (fun _ => false) 2 (fun _ => false) true false 0), (mkEnv 1 [] None 1 true false).
     eexists. split; [apply valid_concrete; cbn; auto|].
     split; [reflexivity|]. split; [vm_compute; reflexivity|]. cbn. discriminate.
 Qed.
@@ -705,9 +716,10 @@ Lemma save_block_mean : forall o i s, outdir o = true ->
   has (files (save_block fixed o i s)) (FMean (fn o i)) = sl_res s.
 Proof.
   intros o i s Ho. unfold save_block. rewrite Ho.
-  assert (Hs : has (files (save_sl fixed (fn o i) (if export o then write (FExport (fn o i)) s else s))) (FMean (fn o i))
-               = sl_res s).
-  { rewrite save_sl_mean. destruct (export o); reflexivity. }
+  set (s2 := if save_all o then (if export o then write (FExport (fn o i)) s else s)
+             else unlink FLast (if export o then write (FExport (fn o i)) s else s)).
+  assert (Hs : has (files (save_sl fixed (fn o i) s2)) (FMean (fn o i)) = sl_res s).
+  { rewrite save_sl_mean. unfold s2. destruct (export o), (save_all o); reflexivity. }
   destruct (plot_e o); [destruct (0 <? i)|]; rewrite ?has_write_other by discriminate; exact Hs.
 Qed.
 
@@ -727,6 +739,7 @@ Proof.
   revert Hr. unfold report_block, glob_set. cbn [fix_global fixed]. rewrite Ho.
   destruct (negb (i =? 0) && negb _); [discriminate|].
   intros H; injection H as <-.
+  rewrite has_gwrite_other, has_write_other by discriminate.
   destruct (plot_m o); rewrite ?has_gwrite_other by discriminate; reflexivity.
 Qed.
 
@@ -734,7 +747,7 @@ Lemma orig_stale_mean :
   exists o e r, valid o e /\ run orig o e = Ok r /\ r_res r = false /\ has (r_files r) (FMean Latest) = true.
 Proof.
   exists (mkOpts 2 (fun i => if i =? 0 then 2 else 0) true true false false false false true false (fun _ => true) false
-                 (fun _ => false) 2 (fun _ => false) true false), e_base.
+                 (fun _ => false) 2 (fun _ => false) true false 0), e_base.
   eexists. split; [apply valid_concrete; cbn; auto|].
   split; [vm_compute; reflexivity|]. cbn. auto.
 Qed.
